@@ -6,10 +6,12 @@ import LlgoVerif.Spec.SysV
     Types: `b h w q p f d` = i8 i16 i32 i64 ptr float double; `{..}` struct; `[N T]` array; `v` = no result.
 
     cls T | clsret T      model of GetTypeInfo: `<kind> size=S align=A n=N off2=O`   (same format as harness/c09)
+    clsfix T | clsretfix T  the same for the repaired classifier of fixes/C09-1.diff
     judge T <kind>        is the given pass kind sound against the psABI specification?  `sound` | `unsound`
     spec T                psABI class: `none` | `memory` | `regs INTEGER SSE ..`  + ` natural=0|1`
     sig R P..             model of transformFuncType: `ret=.. params=..`              (same format as harness/c09)
     place R P..           `impl=<placement> spec=<placement> eq=0|1 fits=0|1 nosplit=0|1 natural=0|1`
+    sigfix / placefix     the same with the repaired classifier
     cstr DEST LEN HEX     CStrCopy into a dirty memory of LEN bytes at DEST, then StringFromCStr: `ok HEX` | `oob`
 -/
 open LlgoVerif LlgoVerif.Util LlgoVerif.CAbi LlgoVerif.SysV
@@ -82,8 +84,8 @@ def parseKind : List String → Option PassKind
   | ["coerce2", a, b] => do pure (.coerce2 (← parseRegTy a) (← parseRegTy b))
   | _ => none
 
-def clsLine (t : CType) (isRet : Bool) : String :=
-  let k := classify t isRet
+def clsLine (t : CType) (isRet : Bool) (fixed : Bool := false) : String :=
+  let k := if fixed then classifyFixedV t.view isRet else classify t isRet
   let o := match k with
     | .coerce2 a b => if k.wellFormed then toString (off2 a b) else "-"
     | _ => "-"
@@ -103,16 +105,16 @@ def largName : LArg → String
   | .scalar r => regTyName r
   | .byval s a => s!"byval:{s}:{a}"
 
-def sigLine (ret : Option CType) (ps : List CType) : String :=
+def sigLine (cls : View → Bool → PassKind) (ret : Option CType) (ps : List CType) : String :=
   let r := match ret with
     | none => "void"
     | some t =>
-      match lowerRetV t.view with
+      match lowerRetC cls t.view with
       | .void => "void"
       | .sret => "sret"
       | .regs [] => "void"
       | .regs rs => "regs:" ++ ",".intercalate (rs.map regTyName)
-  let l := (ps.map fun t => lowerParamV t.view).flatten
+  let l := (ps.map fun t => lowerParamC cls t.view).flatten
   s!"ret={r} params=" ++ (if l.isEmpty then "-" else ",".intercalate (l.map largName))
 
 def locName : Loc → String
@@ -140,6 +142,8 @@ def handle (line : String) : String :=
   match fields line with
   | ["cls", t] => match parseType t with | some t => clsLine t false | none => "bad-op"
   | ["clsret", t] => match parseType t with | some t => clsLine t true | none => "bad-op"
+  | ["clsfix", t] => match parseType t with | some t => clsLine t false true | none => "bad-op"
+  | ["clsretfix", t] => match parseType t with | some t => clsLine t true true | none => "bad-op"
   | ["spec", t] => match parseType t with | some t => specLine t | none => "bad-op"
   | "judge" :: t :: k =>
     match parseType t, parseKind k with
@@ -147,7 +151,18 @@ def handle (line : String) : String :=
     | _, _ => "bad-op"
   | "sig" :: ws =>
     match parseSig ws with
-    | some s => sigLine s.ret s.params
+    | some s => sigLine classifyV s.ret s.params
+    | none => "bad-op"
+  | "sigfix" :: ws =>
+    match parseSig ws with
+    | some s => sigLine classifyFixedV s.ret s.params
+    | none => "bad-op"
+  | "placefix" :: ws =>
+    match parseSig ws with
+    | some s =>
+      let i := implPlaceC classifyFixedV s
+      let p := place s
+      s!"impl={placementName i} spec={placementName p} eq={b01 (decide (i = p))} fits={b01 (fitsInRegs s)} nosplit={b01 (noSplit s)} natural={b01 (decide ((∀ t ∈ s.ret, t.view.natural) ∧ ∀ t ∈ s.params, t.view.natural))}"
     | none => "bad-op"
   | "place" :: ws =>
     match parseSig ws with
